@@ -37,6 +37,12 @@ def gen(rng, tier):
         spec["history"] = {"k": rng.randint(0, 8), "state": rng.random() < 0.5, "log": rng.random() < 0.5, "reload": rng.random() < 0.3}
     elif rng.random() < 0.15:
         spec["backward"] = {"due": rng.random() < 0.3, "reverse": rng.random() < 0.7}
+        if rng.random() < 0.5:
+            # ... and the logs of the backward run are edited afterwards (absence steps inserted or deleted)
+            if rng.random() < 0.5 and spec["cfg"].get("absence"):
+                spec["remove"] = True
+            else:
+                spec["edit"] = [rng.randint(0, 10) for _ in range(rng.randint(1, 3))]
     elif rng.random() < 0.2:
         ed = [rng.randint(0, 10) for _ in range(rng.randint(1, 4))]
         if rng.random() < 0.5 and spec["cfg"].get("absence"):
